@@ -21,6 +21,7 @@ import (
 	"path/filepath"
 	goruntime "runtime"
 	"runtime/debug"
+	"sort"
 	"strings"
 	"time"
 
@@ -1370,6 +1371,24 @@ func runShard(c *vh.Ctx, shard, nshards int) {
 		return
 	}
 	c.Res.Rule = rule
+
+	// ---- committed corpus first (minimised past failures and hand-picked sequences)
+	if shard == 0 {
+		r.knownAsModelled = true
+		paths, _ := filepath.Glob(filepath.Join("..", "corpus", "C12", "*.json"))
+		sort.Strings(paths)
+		for _, p := range paths {
+			b, err := os.ReadFile(p)
+			var cs caseT
+			if err != nil || json.Unmarshal(b, &cs) != nil || cs.NT == 0 || len(cs.Pool) == 0 {
+				c.Note("corpus file %s could not be read", p)
+				continue
+			}
+			cs.Stream = "main"
+			c.Hit("corpus:cases")
+			r.runBatch([]caseT{cs})
+		}
+	}
 
 	// ---- exhaustive part (base + 2 TempVMs)
 	exPool := []int{0, 1, 2, 3, 4}
